@@ -268,6 +268,12 @@ func jtRaw(o interface{}) interface{} {
 		return h.t
 	case topkRedis:
 		return h.t
+	case *cmsMulti:
+		return h.hs[0].s
+	case *hllMulti:
+		return h.hs[0].h
+	case *topkMulti:
+		return h.hs[0].t
 	}
 	return o
 }
